@@ -45,7 +45,7 @@ def props_for(path):
 def ensure_repo(k):
     d = "%s/r%d" % (MUT, k)
     if not os.path.isdir(d):
-        sh(["git", "-C", "/repo", "worktree", "add", "--detach", d, "HEAD"])
+        sh(["git", "-C", "/repo", "worktree", "add", "--detach", d, os.environ.get("MUT_REPO_SHA") or "HEAD"])
     sh("git checkout -q -- . && git clean -fdq", cwd=d)
     return d
 
@@ -53,11 +53,11 @@ def ensure_repo(k):
 def ensure_verif(k):
     d = "%s/v%d" % (MUT, k)
     if not os.path.isdir(d):
-        sh(["git", "-C", "/verif", "worktree", "add", "--detach", d, "HEAD"])
+        sh(["git", "-C", "/verif", "worktree", "add", "--detach", d, os.environ.get("MUT_VERIF_SHA") or "HEAD"])
         shutil.copytree("/verif/lean/.lake", d + "/lean/.lake")
         os.makedirs(d + "/harness/bin", exist_ok=True)
     else:
-        sha = subprocess.run(["git", "-C", "/verif", "rev-parse", "HEAD"], capture_output=True, text=True).stdout.strip()
+        sha = os.environ.get("MUT_VERIF_SHA") or subprocess.run(["git", "-C", "/verif", "rev-parse", "HEAD"], capture_output=True, text=True).stdout.strip()
         sh(["git", "reset", "-q", "--hard", sha], cwd=d)
     return d
 
@@ -119,7 +119,7 @@ def phase2(workers):
     lock = threading.Lock()
 
     def work(k):
-        d = ensure_repo(k)
+        d = ensure_repo(10 + k)
         v = ensure_verif(k)
         env = dict(ENV, GOCACHE="%s/gocache%d" % (MUT, k), VERIF_REPO=d)
         while True:
